@@ -20,11 +20,13 @@ mod c07;
 mod c08;
 mod c09;
 mod c10;
+mod c11;
 mod parsers;
 mod samples;
 mod pk;
 mod c12;
 mod c13;
+mod c14;
 mod c15;
 mod faults;
 
@@ -57,8 +59,10 @@ fn build(id: &str, ctx: &Ctx) -> Option<Property> {
         "C08" => c08::build(ctx),
         "C09" => c09::build(ctx),
         "C10" => c10::build(ctx),
+        "C11" => c11::build_prop(ctx),
         "C12" => c12::build(ctx),
         "C13" => c13::build(ctx),
+        "C14" => c14::build(ctx),
         "C15" => c15::build(ctx),
         _ => return None,
     })
